@@ -22,7 +22,8 @@ MANIFEST = dict(
              "(TraceFYShuffle.tla, exact integer arithmetic on the 52-bit numerator); the same tape after different histories "
              "is compared on real objects; the pre-image measure of every draw order is measured through the real code on a "
              "240-cell grid (m <= 4)."
-         " Added after the seeded-change campaign: balance of the offset map at m = 65537, 2^20 and 2^24 (low and high bits of the drawn offset, also of the first draw after a reset).",
+         " Added after the seeded-change campaign: balance of the offset map at m = 65537, 2^20 and 2^24 (low and high bits of the drawn offset, also of the first draw after a reset)."
+             " At sizes up to 70001 every history of at most three draws with offsets in {0,1,2,3,last} followed by a reset, complete passes at sizes around 2^20, and one shuffle through 140000 (draws, reset) cycles are compared with a new shuffle.",
         design_ref="DESIGN.md section 4, C17",
         note="trusted: TLC; rand 0.9 Uniform<f64>::new(0,1) maps next_u64()>>12 to n*2^-52 (the harness counts calls that "
              "consume another number of words); uniformity is exact for the grid R = lcm(1..m) and, for the floating-point "
